@@ -19,6 +19,7 @@ LimOf(t)   == ZG!Lim(t[1], t[2], t[3], t[4], t[5], t[6], t[7])
 LT_Base     == { TupleOf(l) : l \in ZG!LS_Base }
 LT_Quick    == { TupleOf(l) : l \in ZG!LS_Quick }
 LT_Variants == { TupleOf(l) : l \in ZG!LS_Variants }
+LT_Alone    == { TupleOf(l) : l \in ZG!LS_Alone }
 LT_L3       == { TupleOf(ZG!L3) }
 LT_Three    == { TupleOf(l) : l \in ZG!LS_Three }      \* three entries at / above the count limit
 
